@@ -148,6 +148,11 @@ func c05cRead(rd ChannelReader, n int, deadline time.Duration) ([]byte, error, b
 	}
 	done := make(chan res, 1)
 	go func() {
+		defer func() { // a panic inside the pipe is a failure of the read, with a replay
+			if r := recover(); r != nil {
+				done <- res{nil, fmt.Errorf("panic in the reader: %v", r)}
+			}
+		}()
 		b := make([]byte, n)
 		k, err := io.ReadFull(rd.IoReader(), b)
 		done <- res{b[:k], err}
@@ -464,7 +469,7 @@ func (c *c05chan) scenarioLarge(dir string) {
 	}
 	wait := usync.NewWaitCloser(nil)
 	rd.Start(wait)
-	total := 1024*1024 + 300*1024
+	total := 2*1024*1024 + 600*1024 // more than pipe + buffered reader hold: the pipe's ring wraps
 	right := start
 	pos := start
 	for int(right-start) < total {
@@ -475,8 +480,40 @@ func (c *c05chan) scenarioLarge(dir string) {
 			c.s.Violate("writer-stuck", fmt.Sprintf("appended up to %d", right), c.replay())
 			break
 		}
-		// the consumer lags: it takes about a third of what arrives, in odd pieces
-		k := n / 3
+		// a parsing consumer (ReadSlice/Peek): the buffered reader is topped up while it
+		// still holds bytes, so the pipe is drained only partly and its ring wraps
+		if br := rd.IoReader(); r.Bool() {
+			need := br.Buffered() + 1 + r.Intn(3000)
+			if int64(need) <= right-pos && need <= br.Size() {
+				type pres struct {
+					b   []byte
+					err error
+				}
+				done := make(chan pres, 1)
+				go func() {
+					defer func() {
+						if r := recover(); r != nil {
+							done <- pres{nil, fmt.Errorf("panic in the reader: %v", r)}
+						}
+					}()
+					b, err := br.Peek(need)
+					done <- pres{append([]byte(nil), b...), err}
+				}()
+				select {
+				case x := <-done:
+					if x.err != nil {
+						c.s.Violate("reader-failed", fmt.Sprintf("large: Peek(%d) at %d (writer at %d): %v", need, pos, right, x.err), c.replay())
+					} else {
+						c.checkBytes("large/peek", pos, x.b)
+					}
+				case <-time.After(5 * time.Second):
+					c.s.Violate("reader-stalls-behind-writer", fmt.Sprintf("large: Peek(%d) at %d (writer at %d) does not return", need, pos, right), c.replay())
+				}
+			}
+		}
+		// the consumer lags (more than the pipe holds, in the end): it takes about a
+		// sixth of what arrives, in odd pieces
+		k := n / 6
 		got, err, ok := c05cRead(rd, k, 5*time.Second)
 		if !ok || err != nil {
 			c.s.Violate("reader-stalls-behind-writer", fmt.Sprintf("large: reader at %d (writer at %d) finished=%v err=%v", pos, right, ok, err), c.replay())
